@@ -629,7 +629,9 @@ def _history(draw, path, fi: FI):
         if fi.kind == "str" and i > 0 and draw(st.booleans()):
             # a longer string followed by a shorter one / the empty string
             prev = dec(out[0]["v"])
-            step["v"] = enc(draw(st.sampled_from(["", prev[:1], prev[: len(prev) // 2], prev[:-1]])))
+            # ... or a shorter one with an embedded NUL (the field then reads up to that NUL)
+            step["v"] = enc(draw(st.sampled_from(["", prev[:1], prev[: len(prev) // 2], prev[:-1],
+                                                  "\0" + prev[: len(prev) // 2], prev[:1] + "\0" + prev[: max(0, len(prev) - 3)]])))
         if fi.kind in ARRAY_KINDS:
             step["how"] = draw(_HOW)
             if i > 0 and draw(st.booleans()):  # a slice after the earlier whole-array stores
